@@ -59,6 +59,16 @@ PROPS = {
         assumptions=['FIFO execution of store submissions across ticks for the lease statement', 'completion requests carry a valid state'],
         trusted_base=['task coroutines and kernel tick are modelled by hand and tied by sysdiff; that every yielded UpdateTask satisfies wfUpdateTask is checked at run time by the driver on every dispatched transaction (proved for the block structure only)'],
     ),
+    'C08': dict(
+        modules=['Resonate.Properties.C08'],
+        tie_filter=r'task|promiseInsert|promiseUpdate|callback|shape|wiring|uniques',
+        harness=[sysdiff('sysdiff-dispatch', ['CreatePromise', 'CreatePromise', 'CreatePromiseAndTask', 'CompletePromise', 'ClaimTask', 'CompleteTask', 'CreateCallback', 'CreateSubscription', 'HeartbeatTasks'],
+                         (30, 150), (800, 200), 'C08,C07,C05', ['-routed', '70', '-fail', '20', '-crash', '1', '-smallcfg', '-known', 'F5'], (250, 200)),
+                 storediff('storediff-tasks', TASK_KINDS + ['CreatePromise', 'UpdatePromise', 'CreateCallback', 'DeleteCallbacks'], (20, 30), (500, 40))],
+        rule=SYS_RULE + '; mixes of routed / unrouted promises (routing tags: logical names, URLs, JSON receivers, non-receiver JSON), callbacks and subscriptions; every hand-off outcome (success / refused / error), router failures, store failures, task batch sizes 1..100; monitors: a routed promise is created with its invocation task, a completed promise leaves none of its previous tasks live, C07 task monotonicity, C05',
+        assumptions=['router outcome is taken from the real router and passed to the model (the router model itself is C19)'],
+        trusted_base=['coroutines modelled by hand and tied by sysdiff'],
+    ),
     'C09': dict(
         modules=['Resonate.Properties.C09'],
         tie_filter=r'lock|shape|wiring|uniques',
